@@ -143,7 +143,7 @@ var c05 = &progSpec{
 var c07 = &progSpec{
 	id: "C07",
 	cfg: func(idx int) prog.Cfg {
-		return prog.Cfg{Items: 3, MaxDepth: 3, Ifs: true, Ranges: true, Vars: true, Blocks: idx%2 == 0, Includes: idx%3 == 0, Ctx: true, CondKinds: true, MultiFile: idx%4 == 0, SharedNames: true,
+		return prog.Cfg{Items: 3, MaxDepth: 3, Ifs: true, Ranges: true, Vars: true, Blocks: idx%2 == 0, Includes: idx%3 == 0, Ctx: true, CondKinds: true, MultiFile: idx%4 == 0, SharedNames: true, IssetSwallow: true, IncludeIfExists: idx%2 == 0,
 			Fails: idx%7 == 0, FailAnywhere: idx%7 == 0, StateProbes: idx%2 == 1}
 	},
 	nontriv: func(f map[string]bool, _ *prog.Program) bool {
@@ -185,7 +185,7 @@ var c08 = &progSpec{
 var c13 = &progSpec{
 	id: "C13",
 	cfg: func(idx int) prog.Cfg {
-		return prog.Cfg{Items: 3, MaxDepth: 4, Ifs: true, Ranges: true, Vars: true, Blocks: idx%3 != 0, Includes: idx%4 == 0, MultiFile: idx%6 == 0, Try: true, Fails: true, Ctx: true, CondKinds: true, RangeErrs: true, SharedNames: idx%2 == 0, StateProbes: idx%2 == 1}
+		return prog.Cfg{Items: 3, MaxDepth: 4, Ifs: true, Ranges: true, Vars: true, Blocks: idx%3 != 0, Includes: idx%4 == 0, MultiFile: idx%6 == 0, Try: true, Fails: true, Ctx: true, CondKinds: true, RangeErrs: true, SharedNames: idx%2 == 0, StateProbes: idx%2 == 1, IssetSwallow: true, IncludeIfExists: idx%2 == 0}
 	},
 	nontriv: func(f map[string]bool, _ *prog.Program) bool {
 		return f["try"] && f["fail"] && (f["range"] || f["yield"] || f["if-let"] || f["include"])
